@@ -368,13 +368,18 @@ func (it *intent) node(n *gen.Node) bool {
 			}
 			// completely empty lines that follow belong to this line's text: they stay line breaks, and only the
 			// break that ends the text is what :preserve turns into an entity
+			// in a file with CRLF line ends the carriage return is the last byte of the body line
+			cr := ""
+			if it.f.CRLF {
+				cr = "\r"
+			}
 			for k := li + 1; k < len(n.Lines) && len(n.Lines[k]) == 0; k++ {
-				it.w("\n")
+				it.w(cr + "\n")
 			}
 			if n.Filter == "preserve" {
-				it.w("&#x000A;")
+				it.w(cr + "&#x000A;")
 			} else {
-				it.w("\n")
+				it.w(cr + "\n")
 			}
 		}
 		switch n.Filter {
